@@ -22,7 +22,14 @@ func (g *G) Chance(p float64) bool { return g.R.Float64() < p }
 func UUIDn(n int) string { return fmt.Sprintf("00000000-0000-4000-8000-%012x", n+1) }
 
 // Strn is the n-th string of the pool; Strn(0) is NOT the empty string.
-func Strn(n int) string { return fmt.Sprintf("s%d", n) }
+// Strn is the n-th string of the universe; every fourth one carries the characters encoders get wrong (control
+// characters that have no short JSON escape, NUL, quote, backslash, non-ASCII and astral runes, HTML characters, newline).
+func Strn(n int) string {
+	if n%4 == 3 {
+		return fmt.Sprintf("s%d\x1b\x00\"\\\u00e9\U000e0041<&>\n\a", n)
+	}
+	return fmt.Sprintf("s%d", n)
+}
 
 // Atom draws an atom of type t from a universe of u values (u>=1); the zero
 // value of the type is part of the universe for i/r/b/s.
